@@ -193,3 +193,63 @@ def inv1_all(g):
 
 def wellformed_at(g, q, minlen=3):
     return inv1_all(g) and inv2_at(g, q) and inv3_at(g, q, minlen)
+
+
+def maps_equal(m1, m2, valeq):
+    """Order-insensitive equality of two explicit maps keyed by (symbolic) ints."""
+    if len(m1) != len(m2):
+        return False
+    for k in m1:
+        if k not in m2:
+            return False
+        if not valeq(m1[k], m2[k]):
+            return False
+    return True
+
+
+def same_state(g1, g2, ordered_nodes=True):
+    """Full state equality of two explicit graphs (no query instant needed): nodes, adjacency, timelines, the whole snapshot
+    counter and the whole event index.  The key relations were already decided while the maps were filled, so this adds
+    no forks on correct code."""
+    if (list(g1._node) != list(g2._node)) if ordered_nodes else (set(g1._node) != set(g2._node)):
+        return False
+    for n in g1._node:
+        if g1._node[n] != g2._node[n]:
+            return False
+    a1 = g1._succ if g1.is_directed() else g1._adj
+    a2 = g2._succ if g2.is_directed() else g2._adj
+    if set(a1) != set(a2):
+        return False
+    for u in a1:
+        if set(a1[u]) != set(a2[u]):
+            return False
+        for v in a1[u]:
+            if not tl_equal(a1[u][v].get('t'), a2[u][v].get('t')):
+                return False
+    if g1.is_directed():
+        for u in g1._pred:
+            if set(g1._pred[u]) != set(g2._pred[u]):
+                return False
+    if not maps_equal(g1.snapshots, g2.snapshots, lambda x, y: sbool(x == y)):
+        return False
+
+    def eveq(x, y):
+        x = [] if isinstance(x, int) else sorted(list(x), key=repr)
+        y = [] if isinstance(y, int) else sorted(list(y), key=repr)
+        return x == y
+    # entries whose event set is empty are not observable through stream_interactions()
+    e1 = [(k, v) for k, v in g1.time_to_edge.items() if not isinstance(v, int) and len(v)]
+    e2 = [(k, v) for k, v in g2.time_to_edge.items() if not isinstance(v, int) and len(v)]
+    if len(e1) != len(e2):
+        return False
+    for k, v in e1:
+        found = False
+        for k2, v2 in e2:
+            if sbool(k == k2):
+                found = True
+                if not eveq(v, v2):
+                    return False
+                break
+        if not found:
+            return False
+    return True
